@@ -127,7 +127,7 @@ def sensitivity(ids, names=None):
             continue
         t0 = time.time()
         try:
-            env = dict(os.environ, GSIM_REPO=d, GSIM_NO_EVIDENCE="1")
+            env = dict(os.environ, GSIM_REPO=d, GSIM_NO_EVIDENCE="1", GSIM_REPLAY_DIR=os.path.join(d, "replays"))
             p = subprocess.run([os.path.join(core.VERIF, "check"), m["property"], "quick"], capture_output=True,
                                text=True, env=env, timeout=1500)
             out = p.stdout
@@ -145,9 +145,6 @@ def sensitivity(ids, names=None):
                      "kinds": kinds[:3], "wall_s": round(time.time() - t0, 1), "rc": p.returncode})
         core.out(f"[sensitivity] {m['property']} {m['name']:<44} {'DETECTED' if detected else 'missed  '} rc={p.returncode} "
                  f"{time.time() - t0:5.0f}s {kinds[:2]} {'' if ok else '<-- UNEXPECTED'}")
-        for fn in os.listdir(os.path.join(core.VERIF, "replays")):
-            if fn.endswith(".json"):
-                os.unlink(os.path.join(core.VERIF, "replays", fn))
     with open(os.path.join(core.VERIF, "selftest", "sensitivity_last.json"), "w") as f:
         json.dump(rows, f, indent=1)
     core.out(f"[sensitivity] {len(rows)} mutants, {missed} unexpected outcomes")
